@@ -150,6 +150,9 @@ class C16(Monitor):
                     sweep = rnd.uniform(1e-3, TWO_PI - 1e-3)
                 items.append(dict(t="plan", inch=inch, sx=sx, sy=sy, r=r, a0=a0, sweep=sweep, cw=rnd.random() < 0.5,
                                   text=rnd.random() < 0.3))
+                if rnd.random() < 0.15 and sweep is not None:
+                    # the very same arguments again from a (slightly) different start point: a different circle
+                    items.append(dict(t="repeat", dx=rnd.choice([0.5, -1.0, 2.0, 0.0]), dy=rnd.choice([0.25, 1.0, -2.0])))
             elif t < 0.85:
                 kind = rnd.random()
                 ex, ey = sx + round(rnd.uniform(-40, 40), 3), sy + round(rnd.uniform(-40, 40), 3)
@@ -212,6 +215,8 @@ class C16(Monitor):
         for it in case["items"]:
             if it["t"] == "plan":
                 self.check_plan(it, stats, v, nt)
+            elif it["t"] == "repeat":
+                self.check_repeat(it, stats, v)
             elif it["t"] == "centre":
                 self.check_centre_item(it, stats, v, nt)
             elif it["t"] == "cross":
@@ -250,6 +255,7 @@ class C16(Monitor):
                 return
             stats["planarc_via_handler"] += 1
         else:
+            self.last_plan = (core, (ex, ey, i, j, it["cw"]), (x, y))
             try:
                 core.handlers.planArc(ex, ey, i, j, it["cw"])
             except Exception as exc:  # noqa: B902
@@ -268,6 +274,26 @@ class C16(Monitor):
         if con.last and con.last["n"] > 3 and len(con.failures) == nf:
             nt.append(digest(it))
             stats["points_checked_arcs_gt3"] += 1
+
+    def check_repeat(self, it, stats, v):
+        last = getattr(self, "last_plan", None)
+        if not last:
+            return
+        core, args, start = last
+        con = core.contract
+        x, y = self.place(core, start[0] + it["dx"], start[1] + it["dy"])
+        nf, nc = len(con.failures), con.calls
+        try:
+            core.handlers.planArc(*args)
+        except Exception as exc:  # noqa: B902
+            v.append(dict(kind="exception", idx=-1, cmd="planArc%r" % (args,), detail=repr(exc), mechanism=None))
+            return
+        if con.calls > nc:
+            stats["planarc_contract_evaluations"] += 1
+            stats["planarc_repeated_arguments"] += 1
+        for msg in con.failures[nf:]:
+            v.append(dict(kind="arc-sampling", idx=-1, cmd="planArc%r repeated from (%r, %r)" % (args, x, y), detail=msg, mechanism=None))
+        self.last_plan = None
 
     def check_centre_item(self, it, stats, v, nt):
         core = self.core(it["inch"])
